@@ -66,6 +66,7 @@ func recordHelperSig(sy *symbols, tok string, k *hx.Key, kid string) {
 
 type c14SeqStep struct {
 	iss, signerOf, kidOf, mint string // issuer named; whose key signs; whose key id is named; how it is minted
+	sub                        string // (deep 4) manual: the subject, when it is not the issuer
 }
 
 func c14SeqStream(r *hx.Rand, tier string, nseq int, w *bufio.Writer, caseNo *int, stats map[string]int, sy *symbols) {
@@ -112,6 +113,19 @@ func c14SeqStream(r *hx.Rand, tier string, nseq int, w *bufio.Writer, caseNo *in
 				{iss: "client-A", signerOf: "client-A", kidOf: "client-A", mint: "helper"},
 				{iss: "client-B", signerOf: "client-B", kidOf: "client-B", mint: "generate"},
 				{iss: "client-C", signerOf: "client-C", kidOf: "client-C", mint: "manual"},
+			}
+		}
+		if s == 2 || s == 3 {
+			// (deep 4) sequences 2 and 3: a verifier whose custom subject check admits every subject; genuine assertions of B, A, C whose
+			// SUBJECT is another registered client - through ClientJWTAuth the answer has to be the issuer (the owner of the verifying key)
+			maxAge, offset, custom, vlife = time.Hour, time.Second, true, "shared"
+			via = []string{"clientauth", "verify"}[s-2]
+			script = []c14SeqStep{
+				{iss: "client-B", signerOf: "client-B", kidOf: "client-B", mint: "helper"},
+				{iss: "client-B", signerOf: "client-B", kidOf: "client-B", mint: "manual", sub: "client-A"},
+				{iss: "client-A", signerOf: "client-A", kidOf: "client-A", mint: "helper"},
+				{iss: "client-A", signerOf: "client-A", kidOf: "client-A", mint: "manual", sub: "client-B"},
+				{iss: "client-C", signerOf: "client-C", kidOf: "client-C", mint: "manual", sub: "client-E"},
 			}
 		}
 		var opts []op.JWTProfileVerifierOption
@@ -175,6 +189,9 @@ func c14SeqStream(r *hx.Rand, tier string, nseq int, w *bufio.Writer, caseNo *in
 				if st.signerOf != st.iss {
 					variant = "forged-key-and-kid"
 				}
+				if st.sub != "" {
+					variant = "delegated-sub"
+				}
 			}
 			signEnt := keyOf(st.signerOf)
 			kid := signEnt.kid
@@ -222,6 +239,9 @@ func c14SeqStream(r *hx.Rand, tier string, nseq int, w *bufio.Writer, caseNo *in
 					}
 				case "sub":
 					sub = hx.Pick(r, "client-A", "client-B", "someone")
+				}
+				if st.sub != "" {
+					sub = st.sub
 				}
 				payload, _ := json.Marshal(map[string]any{"iss": iss, "sub": sub, "aud": aud, "iat": iat, "exp": exp})
 				tok, err = sy.sign(signEnt.k, signEnt.k.Algs[0], kid, payload)
